@@ -86,10 +86,16 @@ MANIFEST_ENTRY = {
             "interrupt_yields_error, interrupt_ignored. The send() classification of the four transports is REGENERATED from "
             "the source on every run (translate/sendtab.py) and measured on the real transports: fallback_covers (all four "
             "transports, since the Twisted RawSocket repair) and fallback_plan_covered (so an unserializable / oversize result "
-            "meets a covered plan on every real transport) proved. OneTerminalReply (exactly one once the outcome is known, "
-            "the loop idle, the transport up, for ANY transport behaviour) is stated in full and refuted by decide on two "
-            "histories no real transport produces any more (send() raising another class; the fallback ERROR refused as "
-            "well); ProgressBeforeTerminal refuted by U2. Tie: 709 (quick) scripts of endpoint "
+            "meets a covered plan on every real transport) proved. one_terminal_reply_covered — EXACTLY one at history "
+            "level, both scheduling modes: in every history that begins with onOpen, has no onClose, and whose send() plans "
+            "are made of covered units (planUnits: every refusal as unserializable / oversize is followed by an acceptance — "
+            "what the four real transports produce, real_transport_plan_units), for every request id the terminal replies "
+            "sent plus the invocations still running EQUAL the endpoint calls made; so every invocation that has ended has "
+            "exactly one terminal reply in the trace (one_terminal_reply_covered_ended). The hypothesis is the unit form, not "
+            "planCovered per fault event: two covered plans can concatenate to an uncovered one ([ser] then [big]); "
+            "planUnits_covered relates the two. OneTerminalReply (the same for ANY transport behaviour) stays stated in full "
+            "and refuted by decide on two histories no real transport produces any more (send() raising another class; the "
+            "fallback ERROR refused as well); ProgressBeforeTerminal refuted by U2. Tie: 709 (quick) scripts of endpoint "
             "behaviours x 1-3 concurrent invocations x INTERRUPT before/between/after x scripted send() plans on a mock "
             "transport, both frameworks, observation-exact; and the four real transports x json/msgpack/cbor x negotiated "
             "limits 2^10..2^12 (at 2^9 not even HELLO fits) with real unserializable (object, set, lone surrogate) and "
